@@ -159,6 +159,30 @@ CLAIMED = {
         note=COMMON_NOTE + "remaining() lies are drawn from 0..=12 and usize::MAX; loops are unwound 4 times without unwinding assertions (a liar may "
              "loop a consumer forever); leak-freedom only on returning paths; unsafe trait BufMut implementors are out of the property's scope.",
         technique="Kani/CBMC safety-only checking with fully nondeterministic trait implementations (SAT)", design="5 C17"),
+    "C05": dict(
+        engine="E1-kani + E2-mirsym + E3-rc11",
+        text="Two solver decisions. (1) Kani on the real code: the promotion race - the loser of the compare_exchange continues with a STALE "
+             "snapshot after the winner's complete clone, from an arbitrary unpromoted state (symbolic offset, even/odd address): it frees only "
+             "its own control block, adopts the winner's, counts itself there, every clone reads the original bytes at the original address, all "
+             "handles dropped in any order free the storage once; a conversion racing with a sibling's clone never takes the buffer. "
+             "(2) Bounded axiomatic C11 model checking (z3): litmus programs of 2 (3 in thorough) threads x up to 4 operations from {clone, read, "
+             "drop, into_vec, into_mut, is_unique} on shared / promoted / frozen / owner-backed storage and n threads cloning through one shared "
+             "&Bytes that is still unpromoted; thread bodies are the atomic skeletons extracted from a fresh MIR dump of /repo; queries: freed "
+             "twice, never freed (buffer and every control block), two zero-copy takers - unsat for every interleaving and weak-memory outcome.",
+        note=COMMON_NOTE + "E3 abstracts non-atomic work to READ/WRITE/FREE/TAKE events on abstract objects via a model table for core/alloc calls "
+             "(listed in the evidence); counter values 8-bit; programs outside the bounds and 'sampled schedules on real threads' are outside. "
+             "A sat answer is reported with its execution graph (a C11-level counterexample cannot be replayed natively on x86).",
+        technique="Kani stale-snapshot harnesses + SMT (z3) RC11 encoding of MIR-derived atomic skeletons", design="5 C05"),
+    "C06": dict(
+        engine="E2-mirsym + E3-rc11",
+        text="Bounded axiomatic C11 model checking (z3, RC11 fragment without SC accesses): for the litmus programs of C05, no execution allowed "
+             "by the memory model contains a buffer access that is not happens-before the buffer's deallocation, an access to a control block not "
+             "happens-before its deallocation, two conflicting non-atomic buffer accesses that are hb-unordered (a reader vs. the party that took "
+             "the buffer and mutates it), or an atomic access to a freshly allocated control block not ordered after its initialisation. The "
+             "memory orderings are READ FROM THE MIR of the working tree on every run, so weakening any Release/Acquire/AcqRel changes the encoding.",
+        note=COMMON_NOTE + "Same abstraction as C05 part 2. Validated on every change by mutants (Release->Relaxed in release_shared, Acquire->Relaxed "
+             "in shared_to_mut_impl / Shared::is_unique, AcqRel->Relaxed promotion CAS, non-atomic decrement) which turn queries sat.",
+        technique="SMT (z3) RC11 happens-before encoding over atomic skeletons extracted from rustc MIR", design="5 C06"),
 }
 
 NOT_YET = "check not built yet in this session (work in progress; see DESIGN.md section 5 for the planned solver encoding)"
@@ -202,8 +226,12 @@ m = {
         "add_only": True,
     },
     "engines": [
-        {"name": "E1-kani", "path": "bin/check, bin/vlib.py, kani/ext, kani/incrate, gen/", "serves_properties": sorted(CLAIMED.keys()),
+        {"name": "E1-kani", "path": "bin/check, bin/vlib.py, kani/ext, kani/incrate, gen/", "serves_properties": sorted(k for k in CLAIMED if k != "C06"),
          "kind_free_text": KANI},
+        {"name": "E2-mirsym", "path": "bin/mirsym.py, bin/pathq.py", "serves_properties": ["C03", "C05", "C06", "C13"],
+         "kind_free_text": "path-wise symbolic walk of the nightly -Zunpretty=mir dump of /repo (regenerated per run): atomic skeletons with orderings, guards and non-atomic effects; CFG path queries"},
+        {"name": "E3-rc11", "path": "bin/rc11.py, bin/rc11_run.py", "serves_properties": ["C05", "C06"],
+         "kind_free_text": "bounded axiomatic C11 (RC11 without SC) model checking in z3: symbolic rf/mo, release sequences, sw, hb closure, coherence, no-thin-air"},
     ],
     "checks": checks,
     "not_applicable": na,
